@@ -92,10 +92,13 @@ def is_subseq(a, b):
     return all(x in it for x in a)
 
 
-def run_history(evs_abs):
+def run_history(evs_abs, prepopulated=False):
     """feed events one by one; returns list (per step) of emitted trace or None, and the real event objects"""
     real = EV.realize(evs_abs)
-    parser = EV.new_traces_parser()
+    # the thread/process tables may already be populated when the pairing object is built (a thread map read
+    # earlier, a second request on one PyKdebugParser): pairing must not depend on that
+    tp = {t: 10 + i for i, t in enumerate(TIDS)} if prepopulated else {}
+    parser = EV.new_traces_parser(threads_pids=tp, pids_names={10: 'a', 11: 'b', 12: 'c'} if prepopulated else {})
     emitted = []
     for e in real:
         emitted.append(parser.feed(e))
@@ -106,7 +109,7 @@ def prop_history(ctx, case):
     evs = [list(e) for e in case['events']]
     hist = [(t, c, q) for t, c, q, _ in evs]
     decodable = set(EV.all_decodable())
-    real, emitted = guard(run_history, evs)
+    real, emitted = guard(run_history, evs, bool(case.get('prepopulated')))
     ident = {id(o): k for k, o in enumerate(real)}
     exps = analyse(hist, decodable)
     texts = []
@@ -144,7 +147,7 @@ def prop_history(ctx, case):
     if stray:
         evs2 = [e for j, e in enumerate(evs) if j not in set(stray)]
         # keep original timestamps irrelevant: texts do not show them
-        _, emitted2 = guard(run_history, evs2)
+        _, emitted2 = guard(run_history, evs2, bool(case.get('prepopulated')))
         texts2 = [guard(str, t) for t in emitted2 if t is not None]
         if texts2 != texts:
             raise Violation('stray-end-changes-output', f'with stray ENDs {texts} without {texts2}')
@@ -211,7 +214,7 @@ def history_strategy(max_ops=25):
                 ev(ti, a, 1, w1); ev(ti + 1, a, 1, w2); ev(ti, a, 2, w3); ev(ti + 1, a, 2, w4)
             elif kind == 6:      # window with a NONE inside
                 ev(ti, a, 1, w1); ev(ti, b, q if q in (0, 3) else 0, w2); ev(ti, a, 2, w3)
-        return {'events': out[:60]}
+        return {'events': out[:60], 'prepopulated': bool(ops and ops[0][5] & 1)}
 
     code = st.one_of(st.sampled_from(ordinary), st.sampled_from(ordinary), st.sampled_from(trace),
                      st.sampled_from(undec), st.sampled_from(unknown))
